@@ -101,6 +101,19 @@ def flags(repo):
     if "find_entry(&plan.id)" in head and not dup_up_front:
         common.log("translate/execflags: apply_plan's up-front duplicate-id refusal is no longer the unconditional "
                    f"`History::load(..)?.find_entry(&plan.id).is_some()` guard: {conds or 'find_entry outside an if condition'}")
+    # repo commit 01297aa: two renames of one plan with the same destination are refused in the pre-flight loop (before
+    # ApplyState::new), by a map from destination to source filled after the skip test and consulted before the exists test
+    i_content = apply_fn.find("original_contents")          # STEP 1 starts here: everything before it is pre-flight
+    if i_content < 0:
+        raise RuntimeError("translate/execflags: apply_plan: STEP 1 (original_contents) not found")
+    pre = apply_fn[:i_content]
+    m_sd = re.search(r"if\s+let\s+Some\((\w+)\)\s*=\s*(\w+)\.insert\(\s*&rename\.new_path\s*,\s*&rename\.path\s*\)\s*\{\s*"
+                     r"if\s+\1\s*!=\s*rename\.path\s*\{\s*return\s+Err\(", pre)
+    i_skip = pre.find("rename.new_path == rename.path")
+    i_exists = pre.find("symlink_metadata(&rename.new_path)")
+    shared_dest = bool(m_sd) and 0 <= i_skip < m_sd.start() and (i_exists < 0 or m_sd.start() < i_exists)
+    if ("insert(&rename.new_path" in apply_fn) != shared_dest:
+        common.log("translate/execflags: apply_plan's pre-flight fills a destination map in a way the model has no variant for")
     per_pid = bool(re.search(r"with_extension\(\s*format!\(\s*\"\{\}\.renamify\.tmp\"\s*,\s*std::process::id\(\)\s*\)\s*\)", edit))
     fixed = ("temp_sibling(" in edit) or bool(re.search(r"with_extension\(\s*\"renamify\.tmp\"\s*\)", edit))
     if per_pid == fixed:
@@ -114,6 +127,7 @@ def flags(repo):
         "tempOpenExclusive": excl,
         "tempCleanupOnlyOwn": bool(re.search(r"if\s+temp_created\s*\{[^}]*remove_file", edit, re.S)),
         "dupIdRefusedUpFront": dup_up_front,
+        "sharedDestRefused": shared_dest,
         "rollbackRealPairs": "renames_executed" in rollback_fn,
         "logErrorsIgnored": "?;" not in log_fn,
         "historyEntryIsCommitPoint": late_rollback,
@@ -144,6 +158,8 @@ DOC = {
     "tempCleanupOnlyOwn": "the error path of a content edit removes the temp file only if this call created it",
     "dupIdRefusedUpFront": "apply_plan refuses a plan whose id is already in the history before anything is touched, unconditionally "
                            "(`if History::load(renamify_dir)?.find_entry(&plan.id).is_some()` ahead of ApplyState::new)",
+    "sharedDestRefused": "apply_plan's pre-flight refuses a plan in which two renames with different sources share a destination "
+                         "(checked per rename after the skip test and before the exists test)",
     "rollbackRealPairs": "apply.rs::rollback reverts the renames with the paths they were executed with (renames_executed)",
     "logErrorsIgnored": "ApplyState::log drops a line it cannot write instead of propagating the error",
     "historyEntryIsCommitPoint": "apply_plan: patches, stored plan (removed on failure), history entry last; a failure rolls the renames back",
